@@ -236,7 +236,9 @@ func (m *MmsTables) GetOutOfOrderFileNum() int {
 
 	total := 0
 	for _, v := range m.OutOfOrder {
+		v.lock.RLock()
 		total += v.Len()
+		v.lock.RUnlock()
 	}
 	return total
 }
